@@ -171,7 +171,7 @@ def s32(b):
 
 
 # ------------------------------------------------------------------ the check
-def run(ctx):
+def _run(ctx):
     ctx.level = "model_checking"
     ctx.assumptions = [
         "timing classes are made by gates inside the recording servant, not by sleeping: 'elapsed' = own timeout 1-3 ms, queued behind gated "
@@ -573,3 +573,21 @@ def _has_id(frame, id4):
                 kind = "req"
             break
     return ints_by_tag.get(4 if kind == "req" else 3) == s32(id4)
+
+
+def run(ctx):
+    """C10 proper, with the observation stage on the aggregation of call statistics (checks/statagg.py, spec/StatAgg) alongside:
+    Protocol.Invoke files one report per call; the stage never produces a verdict and cannot change the exit code."""
+    from checks import statagg
+    sx = ThreadPoolExecutor(max_workers=1)
+    sf = sx.submit(statagg.run, ctx) if getattr(ctx, "replay", None) is None else None
+    try:
+        return _run(ctx)
+    finally:
+        try:
+            st = sf.result() if sf is not None else None
+        except BaseException as e:      # noqa: the stage is an observer
+            st = {"stage_failed": str(e)[:300]}
+        sx.shutdown()
+        if st is not None and isinstance(getattr(ctx, "coverage", None), dict):
+            ctx.coverage["stat_aggregation"] = st
